@@ -8,7 +8,7 @@ from vf.core.runner import Violation, known_or_raise
 
 PID = "C19"
 LEVEL = "exploration"
-BUDGET = {"quick": 3000, "thorough": 200000}
+BUDGET = {"quick": 6000, "thorough": 200000}
 PATHS = ["/etc/a.conf", "/etc/frr/frr.conf", "/etc/b/c.json"]
 RULE = ("Hypothesis draws 1..5 Entire generators (path from a pool of 3, pairwise distinct priorities, output as a string / tuple parts / "
         "several yielded parts, reload string or none, is_safe flag), a listing order, an old file map (per path: absent / equal to the "
